@@ -457,25 +457,6 @@ pub mod time_kernel {
     }
 }
 pub use time_kernel::{utc_timestamp_opt, utc_timestamp};
-/// `str::parse::<F>()` (TRUSTED: total -- it returns Err for anything it cannot read)
-#[verifier::external_type_specification]
-#[verifier::external_body]
-pub struct ExParseIntError(core::num::ParseIntError);
-#[verifier::external_trait_specification]
-pub trait ExFromStr: Sized {
-    type ExternalTraitSpecificationFor: core::str::FromStr;
-    type Err;
-    fn from_str(s: &str) -> core::result::Result<Self, Self::Err>;
-}
-pub assume_specification<F: core::str::FromStr>[ str::parse::<F> ](s: &str) -> (r: core::result::Result<F, <F as core::str::FromStr>::Err>);
-impl TaskData {
-//@extract src/task/data.rs :: impl TaskData :: fn get | R22
-    pub fn get(&self, property: &str) -> (r: Option<&str>)
-{
-        self.taskmap.get(property).map(|v| v.as_str())
-    }
-//@end
-}
 impl Task {
 //@extract src/task/task.rs :: impl Task :: fn get_timestamp
     pub fn get_timestamp(&self, property: &str) -> (r: Option<Timestamp>)
